@@ -9,11 +9,13 @@
      1006 completing timer fired on an idle Completing application and it did not become Completed
      1007 a terminated application is still listed by a queue
      1008 an ask for a terminated application was not rejected
+     1091 correspondence: state / ledgers of an application after a single-key release differ from the release-path
+          model Core/AppEvents.release_key
      1050 = 1003 inside the window of finding C10-completed-live-alloc (DESIGN 7 #13)
      1052 = 1004 inside the same window (the outstanding ask is the real half of the swap being confirmed)
      1051 = 1004 inside the window of finding C10-completed-outstanding-swap (DESIGN 7 #17) *)
 From Coq Require Import List ZArith NArith Bool.
-From YK Require Import Base.Res Core.Obs Core.AppLife.
+From YK Require Import Base.Res Core.Obs Core.AppLife Core.AppEvents.
 Import ListNotations.
 Open Scope N_scope.
 
@@ -142,6 +144,29 @@ Definition terminated_rejects (pre : ostate) (st : ostep) : bool :=
   | _ => true
   end.
 
+(* --- 1091: release-path model against the implementation --- *)
+Definition same_object (post : ostate) (a : oapp) : option oapp :=
+  find (fun a' => (ap_id a' =? ap_id a) && is_prefix (ap_statelog a) (ap_statelog a')) (s_apps post ++ s_completed post).
+Definition release_model_ok (pre : ostate) (st : ostep) : bool :=
+  match st_op st with
+  | OpRelease app key ty =>
+      if (app =? 0) || (key =? 0) || st_panic st then true else
+      match find_app pre app with
+      | None => true
+      | Some a =>
+          let r := release_key (rs_of a) key ty in
+          match same_object (st_obs st) a with
+          | Some a' =>
+              (ap_state a' =? rs_state r) &&
+              (is_terminal (ap_state a') ||
+               (res_eqz (ap_pending a') (rs_pending r) && res_eqz (ap_allocated a') (rs_allocated r) && res_eqz (ap_phalloc a') (rs_phalloc r) &&
+                Bool.eqb (ap_statetimer a') (rs_timer r)))
+          | None => true
+          end
+      end
+  | _ => true
+  end.
+
 (* ---- windows of the recorded findings ---- *)
 (* #13: the shim confirms (PLACEHOLDER_REPLACED) a placeholder whose swap is in flight while the application is
    Completing and its completing timer has already been cleared: removeAllocationInternal takes the
@@ -200,7 +225,8 @@ Definition c10_step (idx : N) (pre : ostate) (m : list (N * N)) (st : ostep) : l
    flag idx 1005 (idle_completing pre st) ++
    flag idx 1006 (idle_completes pre st) ++
    flag idx 1007 (newly terminated_unqueued pre post) ++
-   flag idx 1008 (terminated_rejects pre st)).
+   flag idx 1008 (terminated_rejects pre st) ++
+   flag idx 1091 (release_model_ok pre st)).
 
 Fixpoint c10_steps (base : N) (i : N) (pre : ostate) (m : list (N * N)) (l : list ostep) : list (N * N) :=
   match l with
